@@ -376,3 +376,9 @@ def run(ck, prog, ctx):
     ck.rule("MAPITER", "a hand-written mapping iterator returns None only on the inner iterator's exhaustion (no early end on a failed lookup)")
     from engines import check_mapping_iterators
     check_mapping_iterators(ck, "MAPITER", prog, r"^src/matrix\.rs$", floor=2)
+    # the names accepted by StandardCombiner::try_from select the combiner of that name
+    ck.rule("NAMES", "a name-to-variant table maps every accepted name to the variant it names")
+    from engines import check_name_table
+    sc = prog.body("<similarity::StandardCombiner as std::convert::TryFrom<&str>>::try_from")
+    if ck.anchor("NAMES", "StandardCombiner::try_from(&str)", sc):
+        check_name_table(ck, "NAMES", "StandardCombiner::try_from", sc, r"similarity::StandardCombiner$", floor=3)
